@@ -763,6 +763,7 @@ func TestPropPipelineBurst(t *testing.T) { hx.Check(t, 1500, genBurst, runBurst)
 type ReuseCase struct {
 	Bursts  []int `json:"bursts"`   // sizes of consecutive bursts
 	CancelK []int `json:"cancel_k"` // per burst: cancel this many instead of answering
+	Late    []int `json:"late"`     // per burst: this many of the cancelled queries are answered late, after the burst (their connections become idle again)
 }
 
 func genReuse(t *rapid.T) ReuseCase {
@@ -772,6 +773,7 @@ func genReuse(t *rapid.T) ReuseCase {
 		n := rapid.IntRange(1, 12).Draw(t, "n")
 		c.Bursts = append(c.Bursts, n)
 		c.CancelK = append(c.CancelK, rapid.SampledFrom([]int{0, 0, 1, n}).Draw(t, "ck"))
+		c.Late = append(c.Late, rapid.SampledFrom([]int{0, 0, 1, n}).Draw(t, "late"))
 	}
 	return c
 }
@@ -838,9 +840,10 @@ func runReuse(c ReuseCase, ctx *hx.Ctx) *hx.Failure {
 		}
 		for i, cl := range calls {
 			if i < k {
+				// The caller is gone, but its query is on the wire and unanswered: the connection it was written on
+				// stays occupied (the watcher keeps counting it) until the server answers it or the connection dies.
 				cl.cancel()
 				<-cl.done
-				w.ended(cl.name)
 			} else {
 				w.reply(cl.name)
 				select {
@@ -855,6 +858,13 @@ func runReuse(c ReuseCase, ctx *hx.Ctx) *hx.Failure {
 					return hx.Failf("C09/harness", "answered query failed: %v", cl.err)
 				}
 			}
+		}
+		late := 0
+		if b < len(c.Late) {
+			late = min(c.Late[b], k)
+		}
+		for i := 0; i < late; i++ {
+			w.reply(calls[i].name) // the late reply: nobody waits for it, the connection becomes idle again
 		}
 		// connections whose query was answered are idle again; cancelled ones stay busy until a reply or timeout
 		for _, fc := range env.Conns() {
